@@ -17,6 +17,11 @@ CONSTANTS
   BatchSizes = {0, 2}
   UnstashNs = {}
   HandlerIds = {}
+  Kinds = {}
+  Keys = {1}
+  SrcOpts = {}
+  MaxBatch = 3
+  Errnos = {}
   Targets = {"A"}
   AutoVals = {TRUE}
   Senders = {"B"}
